@@ -74,6 +74,14 @@ GetSlice(st, sp, sk) ==
   Step([op |-> "slice", st |-> st, sp |-> sp, sk |-> sk], xs, Obj(Slice(xs, st, sp, sk)), 0)
 
 Iterate == Step([op |-> "iter"], xs, Objs(xs), 0)
+\* two iterations over the SAME object alive at once: a nested loop (for a in x: for b in x) yields every ordered
+\* pair, zip(x, x) the diagonal; the result lists a1, b1, a2, b2, ... - iterations are independent of one another
+NestedPairs(s) == [k \in 1..(2 * Len(s) * Len(s)) |->
+                     LET p == (k - 1) \div 2  i == (p \div Len(s)) + 1  jj == (p % Len(s)) + 1
+                     IN  IF k % 2 = 1 THEN s[i] ELSE s[jj]]
+ZipPairs(s)    == [k \in 1..(2 * Len(s)) |-> s[((k - 1) \div 2) + 1]]
+IterateNested == Step([op |-> "iter2"], xs, Objs(NestedPairs(xs)), 0)
+IterateZip    == Step([op |-> "iterzip"], xs, Objs(ZipPairs(xs)), 0)
 
 LenOp == Step([op |-> "len"], xs, [k |-> "int", v |-> Len(xs)], 0)
 
@@ -129,6 +137,8 @@ Next ==
   \/ \E i \in Idx : GetItem(i)
   \/ \E st \in SlStart : \E sp \in SlStop : \E sk \in SlStep : GetSlice(st, sp, sk)
   \/ Iterate
+  \/ IterateNested
+  \/ IterateZip
   \/ LenOp
   \/ CopyCtor
   \/ \E kind \in ArgKinds : DoAppend(kind)
@@ -159,7 +169,7 @@ OnlyKnownIds == \A k \in 1..Len(xs) : xs[k] < nextId
 FailedUnchanged == [][res'.k = "raise" => xs' = xs]_vars
 
 ReadOnlyUnchanged ==
-  [][last'.op \in {"getitem", "slice", "iter", "len", "copy"} => xs' = xs]_vars
+  [][last'.op \in {"getitem", "slice", "iter", "iter2", "iterzip", "len", "copy"} => xs' = xs]_vars
 
 \* sanity of the slice transcription: reversing slice = Reverse, full slice = identity,
 \* slice length = number of positions, all positions in range
